@@ -451,6 +451,13 @@ def run_layout(ctx, res, case, rng, lib=True):
     os.makedirs(os.path.join(d, 'zsub'), exist_ok=True)
 
     def spell(p):
+        e = case['files'].get(p) or {}
+        base = posixpath.basename(p)
+        if rng.random() < 0.12 and 'link' not in e and not e.get('raw') and '.' in base and base.rsplit('.', 1)[-1] in EXTS:
+            # a virtual name: the layer is asked for under another supported extension than the file on disk has
+            others = [x for x in EXTS if x != base.rsplit('.', 1)[-1]]
+            p = p.rsplit('.', 1)[0] + '.' + rng.choice(others)
+            res.labels.add('cli:virtual-extension')
         r = rng.random()
         if r < 0.15:
             return './' + p
